@@ -110,6 +110,35 @@ def handleCore : Sexp → Option Sexp
       | _ => .atom "?"
     some (.list [outS, .list ((List.range ds.length).map fun i =>
       if keys.getD i false then valS (st'.sol.getD i none) else .atom "-")])
+  | .list (.atom "session" :: ops) => do
+    -- replay a whole Solver session; `find`/`solve` ops carry the oracle answers recorded from the real run
+    let rec nest? : Sexp → Option Nest
+      | .list (.atom "l" :: xs) => (xs.mapM nest?).map Nest.items
+      | s => (Expr.ofSexp? s).map Nest.leaf
+    let step (acc : Option (SolverState × List Sexp)) (op : Sexp) : Option (SolverState × List Sexp) := do
+      let (st, outs) ← acc
+      let outS (o : OpOut) : Sexp := match o with
+        | .unit => .atom "ok"
+        | .var id => .list [.atom "var", .ofNat id]
+        | .verdict b => .ofBool b
+        | .raised e => .list [.atom "err", .atom e.name]
+      match op with
+      | .list [.atom "bv"] => let (st', o) := st.step (fun _ _ => .ok none) .boolVar; some (st', outs ++ [outS o])
+      | .list [.atom "iv", lo, hi] => do
+        let (st', o) := st.step (fun _ _ => .ok none) (.intVar (← lo.toInt?) (← hi.toInt?)); some (st', outs ++ [outS o])
+      | .list [.atom "ens", a] => do
+        let (st', o) := st.step (fun _ _ => .ok none) (.ensure (← nest? a)); some (st', outs ++ [outS o])
+      | .list [.atom "key", a] => do
+        let (st', o) := st.step (fun _ _ => .ok none) (.addAnswerKey (← nest? a)); some (st', outs ++ [outS o])
+      | .list [.atom "find", ans] => do
+        let r ← match ans with
+          | Sexp.atom "N" => some (none : Option Asg)
+          | a => (asg? st.decls a).map some
+        let (st', o) := st.step (fun _ _ => .ok r) .findAnswer
+        some (st', outs ++ [.list [outS o, .list ((List.range st'.decls.length).map fun i => valS (st'.sol.getD i none))]])
+      | _ => none
+    let (st, outs) ← ops.foldl step (some ({}, []))
+    some (.list [.list outs, .list (st.decls.map VarDecl.toSexp), .list (st.isKey.map Sexp.ofBool), .list (st.cs.map Expr.toSexp)])
   | .list [.atom "refuting", ans] => do
     let ans ← (← ans.toList?).mapM fun a => match a with
       | Sexp.atom "N" => some (none : Option Val)
